@@ -327,20 +327,23 @@ func (c *Client) Backup(ctx context.Context, br *command.BackupRequest, nodeAddr
 		return errors.New(a.Error)
 	}
 
-	// The backup stream is unconditionally compressed, so depending on whether
-	// the user requested compression, we may need to decompress the response.
-	var rc io.ReadCloser
-	rc = conn
-	if !br.Compress {
-		gzr, err := gzip.NewReader(conn)
-		if err != nil {
-			return err
-		}
-		gzr.Multistream(false)
-		rc = gzr
-		defer rc.Close()
+	// The backup stream is unconditionally compressed. It is always decoded here, because
+	// that is what finds the end of the stream and turns a truncated stream into an error.
+	// If the user requested compression the compressed bytes are passed through to w
+	// unchanged and the decoded bytes are discarded.
+	var src io.Reader = conn
+	dst := w
+	if br.Compress {
+		src = io.TeeReader(conn, w)
+		dst = io.Discard
 	}
-	_, err = io.Copy(w, rc)
+	gzr, err := gzip.NewReader(src)
+	if err != nil {
+		return err
+	}
+	defer gzr.Close()
+	gzr.Multistream(false)
+	_, err = io.Copy(dst, gzr)
 	return err
 }
 
